@@ -748,7 +748,7 @@ def m_res_unwrap_or_default(it, n, a):
 
 
 # =========================================================================================== Vec / slices / strings
-@model(r'^Vec::<.*>::new$')
+@model(r'^Vec::<.*>::new$|^<Vec<.*> as (std::default::)?Default>::default$')
 def m_vec_new(it, n, a):
     return VecV()
 
@@ -896,8 +896,9 @@ def m_str_alter(it, n, a):
     s = arg0(a)
     op = re.search(r'str>::(\w+)', n).group(1)
     if isinstance(s, str) and op in ('trim', 'trim_start', 'trim_end', 'to_lowercase', 'to_ascii_lowercase', 'to_ascii_uppercase'):
+        asc = lambda f: ''.join(f(ch) if ord(ch) < 128 else ch for ch in s)
         return {'trim': s.strip(), 'trim_start': s.lstrip(), 'trim_end': s.rstrip(), 'to_lowercase': s.lower(),
-                'to_ascii_lowercase': s.lower(), 'to_ascii_uppercase': s.upper()}[op]
+                'to_ascii_lowercase': asc(str.lower), 'to_ascii_uppercase': asc(str.upper)}[op]
     if isinstance(s, str) and op == 'replace' and isinstance(deref(a[1]), str) and isinstance(deref(a[2]), str):
         return s.replace(deref(a[1]), deref(a[2]))
     return fresh_str(it, op)
@@ -1062,7 +1063,7 @@ def bt_find(it, m, k):
     return len(m.entries), False
 
 
-@model(r'^BTreeMap::<.*>::new$')
+@model(r'^BTreeMap::<.*>::new$|^<(std::collections::)?BTreeMap<.*> as (std::default::)?Default>::default$')
 def m_bt_new(it, n, a):
     return BTreeV()
 
@@ -1155,7 +1156,7 @@ def h_eq(x, y):
     return x == y
 
 
-@model(r'^HashSet::<.*>::new$')
+@model(r'^HashSet::<.*>::(new|with_capacity)$|^<(std::collections::)?HashSet<.*> as (std::default::)?Default>::default$')
 def m_hs_new(it, n, a):
     return HashSetV()
 
@@ -1518,7 +1519,17 @@ def m_layouter_index(it, n, a):
             raise Unsupported(f'type size model disagrees with naga Layouter for type {i}: {mine} != {size}')
     else:
         size = type_size(it, module, inner)
-    return mkref(Agg('TypeLayout', [size, Opaque('alignment')]))
+    try:
+        al = type_align(it, module, inner)
+        if sizes is not None and i < len(sizes) and not (getattr(module, 'sym_types', None) and i in module.sym_types):
+            if isinstance(al, int) and al != sizes[i]['alignment'] and inner.variant in ('Scalar', 'Vector', 'Matrix', 'Atomic'):
+                raise Unsupported(f'alignment model disagrees with naga Layouter for type {i}: {al} != {sizes[i]["alignment"]}')
+            al = sizes[i]['alignment']
+    except Unsupported:
+        raise
+    except Exception:
+        al = Opaque('alignment')
+    return mkref(Agg('TypeLayout', [size, al]))
 
 
 # =========================================================================================== environment
@@ -1652,6 +1663,8 @@ def m_str_len(it, n, a):
     s = arg0(a)
     if isinstance(s, str):
         return len(s.encode())
+    if isinstance(s, SymStr):
+        return it.fresh('string_length', 64)           # an abstract string has some length
     raise Unsupported(f'len of {s!r}')
 
 
@@ -2395,3 +2408,459 @@ def m_res_transpose(it, n, a):
         return some(err(v))
     s_, w = opt_fork(it, v)
     return some(ok(w)) if s_ else none()
+
+
+# =========================================================================================== HashMap, ordering, more strings
+class HashMapV:
+    def __init__(self):
+        self.entries = []      # [key, value]
+
+
+def variant_name(it, v):
+    """variant of an enum value; forks when the discriminant is symbolic"""
+    if not isinstance(v.fields, dict):
+        return v.variant
+    sch = it.env['schema']['enums'].get(v.path)
+    if sch is None:
+        raise Unsupported('symbolic enum of unknown type ' + str(v.path))
+    d = v.disc
+    if is_sym(d):
+        d = it.concretize(d, [x['disc'] for x in sch])
+    return next(x['name'] for x in sch if x['disc'] == d)
+
+
+def fields_of(v, name):
+    return v.fields.get(name, []) if isinstance(v.fields, dict) else v.fields
+
+
+def deep_eq(it, a, b):
+    """structural equality of two values (derived PartialEq); forks on symbolic scalars and discriminants"""
+    a, b = deref(a), deref(b)
+    if isinstance(a, Agg) and isinstance(b, Agg):
+        if not isinstance(a.fields, dict) and not isinstance(b.fields, dict) and (is_sym(a.disc) or is_sym(b.disc)):
+            # enum values whose discriminant is a term but whose payload is not variant-dependent (field-less enums)
+            if a.disc is None or b.disc is None or not it.truth(h_eq(a.disc, b.disc)):
+                return False
+            return len(a.fields) == len(b.fields) and all(deep_eq(it, x, y) for x, y in zip(a.fields, b.fields))
+        if a.disc is not None or b.disc is not None or isinstance(a.fields, dict) or isinstance(b.fields, dict):
+            if a.path == 'Option' or isinstance(a.fields, dict) or isinstance(b.fields, dict) or is_sym(a.disc) or is_sym(b.disc):
+                na = variant_name(it, a) if (isinstance(a.fields, dict) or is_sym(a.disc)) else a.variant
+                nb = variant_name(it, b) if (isinstance(b.fields, dict) or is_sym(b.disc)) else b.variant
+                if na != nb:
+                    return False
+                fa, fb = fields_of(a, na), fields_of(b, nb)
+                return len(fa) == len(fb) and all(deep_eq(it, x, y) for x, y in zip(fa, fb))
+        if a.variant != b.variant or len(a.fields) != len(b.fields):
+            return False
+        return all(deep_eq(it, x, y) for x, y in zip(a.fields, b.fields))
+    if isinstance(a, VecV) and isinstance(b, VecV):
+        return len(a.items) == len(b.items) and all(deep_eq(it, x, y) for x, y in zip(a.items, b.items))
+    if isinstance(a, list) and isinstance(b, list):
+        return len(a) == len(b) and all(deep_eq(it, x, y) for x, y in zip(a, b))
+    if isinstance(a, Opaque) or isinstance(b, Opaque):
+        return a is b or (isinstance(a, Opaque) and isinstance(b, Opaque) and a.what == b.what)
+    if is_sym(a) or is_sym(b):
+        return it.truth(h_eq(a, b))
+    return a == b
+
+
+def hm_find(it, m, k):
+    for i, e in enumerate(m.entries):
+        if deep_eq(it, e[0], k):
+            return i
+    return None
+
+
+@model(r'^HashMap::<.*>::(new|with_capacity)$|<HashMap<.*> as (std::default::)?Default>::default$')
+def m_hm_new(it, n, a):
+    return HashMapV()
+
+
+@model(r'^HashMap::<.*>::insert$')
+def m_hm_insert(it, n, a):
+    m = arg0(a)
+    i = hm_find(it, m, a[1])
+    if i is None:
+        m.entries.append([a[1], a[2]])
+        return none()
+    old = m.entries[i][1]
+    m.entries[i][1] = a[2]
+    return some(old)
+
+
+@model(r'^HashMap::<.*>::(get|get_mut)::<')
+def m_hm_get(it, n, a):
+    m = arg0(a)
+    i = hm_find(it, m, a[1])
+    return some(Ref(SlotCell(m.entries[i]))) if i is not None else none()
+
+
+@model(r'^HashMap::<.*>::contains_key::<')
+def m_hm_contains(it, n, a):
+    return hm_find(it, arg0(a), a[1]) is not None
+
+
+@model(r'^HashMap::<.*>::entry$')
+def m_hm_entry(it, n, a):
+    m = arg0(a)
+    i = hm_find(it, m, a[1])
+    return Agg('hash::Entry', [m, i, a[1]])
+
+
+@model(r'hash_map::Entry::<.*>::(or_insert|or_insert_with|or_default)(::<.*>)?$')
+def m_hm_or_insert(it, n, a):
+    m, i, k = a[0].fields
+    if i is None:
+        if 'or_insert_with' in n:
+            v = it.call_closure(a[1], [])
+        elif 'or_default' in n:
+            raise Unsupported(n)
+        else:
+            v = a[1]
+        m.entries.append([k, v])
+        i = len(m.entries) - 1
+    return Ref(SlotCell(m.entries[i]))
+
+
+@model(r'^HashMap::<.*>::(len)$')
+def m_hm_len(it, n, a):
+    return len(arg0(a).entries)
+
+
+@model(r'^HashMap::<.*>::(iter|values|keys|into_iter|drain|into_values|into_keys)$|<&?HashMap<.*> as IntoIterator>::into_iter$')
+def m_hm_iter(it, n, a):
+    """hash map iteration order is arbitrary: every permutation (fresh decisions)"""
+    m = arg0(a)
+    items = list(m.entries)
+    out = []
+    while items:
+        if len(items) > 1:
+            pick = it.fresh('hash_pick', 8)
+            i = it.decide([pick == j for j in range(len(items))] + [z3.UGE(pick, len(items))])
+            if i >= len(items):
+                i = 0
+        else:
+            i = 0
+        out.append(items.pop(i))
+    it.env.setdefault('hash_iterated', []).append(n)
+    if re.search(r'values$', n):
+        return ListIter([Ref(SlotCell(e)) for e in out])
+    if re.search(r'keys$', n):
+        return ListIter([Ref(KeyCell(e)) for e in out])
+    return ListIter([tup(Ref(KeyCell(e)), Ref(SlotCell(e))) for e in out])
+
+
+def ordering(c):
+    return Agg('Ordering', [], variant={-1: 'Less', 0: 'Equal', 1: 'Greater'}[c], disc=c)
+
+
+@model(r'^<(String|str|&str|u8|u16|u32|u64|usize|i32) as (Ord|PartialOrd)>::(cmp|partial_cmp)$')
+def m_cmp(it, n, a):
+    c = key_cmp(it, a[0], a[1])
+    return some(ordering(c)) if n.endswith('partial_cmp') else ordering(c)
+
+
+@model(r'^Ordering::(reverse|then|is_eq|is_lt|is_gt|is_le|is_ge|is_ne)$')
+def m_ordering_ops(it, n, a):
+    d = a[0].disc if isinstance(a[0], Agg) else deref(a[0]).disc
+    op = n.split('::')[-1]
+    if op == 'reverse':
+        return ordering(-d)
+    if op == 'then':
+        return a[0] if d != 0 else a[1]
+    return {'is_eq': d == 0, 'is_lt': d < 0, 'is_gt': d > 0, 'is_le': d <= 0, 'is_ge': d >= 0, 'is_ne': d != 0}[op]
+
+
+@model(r'^Vec::<.*>::dedup_by::<')
+def m_dedup_by(it, n, a):
+    v = arg0(a)
+    if not v.items:
+        return unit()
+    out = [v.items[0]]
+    for x in v.items[1:]:
+        # same_bucket(&mut next, &mut last_kept): `next` is removed when it returns true
+        if not it.truth(it.call_closure(a[1], [mkref(x), mkref(out[-1])])):
+            out.append(x)
+    v.items[:] = out
+    return unit()
+
+
+@model(r'str>::(strip_prefix|strip_suffix)::<')
+def m_strip_prefix(it, n, a):
+    s, p = arg0(a), deref(a[1])
+    if isinstance(p, int):
+        p = chr(p)
+    if isinstance(s, str) and isinstance(p, str):
+        if 'strip_prefix' in n:
+            return some(s[len(p):]) if s.startswith(p) else none()
+        return some(s[:len(s) - len(p)]) if s.endswith(p) else none()
+    # abstract string: it may or may not carry the affix; when it does, the rest is some other string
+    if it.truth(it.fresh('has_affix', 'bool')):
+        return some(fresh_str(it, 'stripped'))
+    return none()
+
+
+@model(r'str>::(split|lines|chars|bytes|char_indices|split_whitespace)\b|<\[u8\]>::chunks|slice::<impl \[u8\]>::chunks')
+def m_str_iterate(it, n, a):
+    s = arg0(a)
+    if isinstance(s, Agg) and s.path == 'Bytes':
+        s = s.fields[0]
+    if isinstance(s, str) and re.search(r'str>::chars', n):
+        return ListIter([ord(c) for c in s])
+    if isinstance(s, str) and re.search(r'str>::lines', n):
+        return ListIter(s.splitlines())
+    raise Unsupported('iteration over the characters / pieces of an abstract string: ' + n)
+
+
+def type_align(it, module, inner):
+    """WGSL AlignOf (naga proc/layouter.rs): scalar width; vecN: N=2 -> 2w, 3/4 -> 4w; matrix: align of its column vector; array: of its
+    element; struct: max of the members"""
+    sch = it.env['schema']
+    conv = it.env['conv']
+    E = {v['name']: v['disc'] for v in sch['enums']['TypeInner']}
+    d = inner.disc
+    if is_sym(d):
+        d = it.concretize(d, sorted(E.values()))
+    name = next(k for k, v in E.items() if v == d)
+    f = inner.fields[name] if isinstance(inner.fields, dict) else inner.fields
+
+    def u32(x):
+        return z3.ZeroExt(32 - x.size(), x) if is_sym(x) and x.size() < 32 else x
+
+    def vec_align(size_enum, width):
+        sd = size_enum.disc
+        if is_sym(sd):
+            sd = it.concretize(sd, [2, 3, 4])
+        return {2: 2, 3: 4, 4: 4}[sd] * u32(width)
+    if name in ('Scalar', 'Atomic'):
+        return u32(f[0].fields[1])
+    if name == 'Vector':
+        return vec_align(f[0], f[1].fields[1])
+    if name == 'Matrix':
+        return vec_align(f[1], f[2].fields[1])
+    types = conv.get(module, 'types').fields[0].items
+    if name == 'Array':
+        b = f[0]
+        if is_sym(b):
+            b = it.concretize(b, list(range(len(types))))
+        return type_align(it, module, conv.get(types[b], 'inner'))
+    if name == 'Struct':
+        best = 1
+        for mb in f[0].items:
+            t = conv.get(mb, 'ty')
+            if is_sym(t):
+                t = it.concretize(t, list(range(len(types))))
+            al = type_align(it, module, conv.get(types[t], 'inner'))
+            best = al if isinstance(al, int) and isinstance(best, int) and al > best else best
+        return best
+    return 1
+
+
+@model(r'TypeLayout::to_stride$')
+def m_to_stride(it, n, a):
+    lay = arg0(a)
+    size, al = lay.fields
+    if isinstance(al, Opaque):
+        raise Unsupported('alignment of this type is not modelled')
+    if is_sym(size) or is_sym(al):
+        sz = size if is_sym(size) else z3.BitVecVal(size, 32)
+        az = al if is_sym(al) else z3.BitVecVal(al, 32)
+        return z3.UDiv(sz + az - 1, az) * az
+    return ((size + al - 1) // al) * al
+
+
+@model(r'^Alignment::round_up$')
+def m_align_round_up(it, n, a):
+    al, x = deref(a[0]), a[1]
+    if is_sym(al) or is_sym(x):
+        az = al if is_sym(al) else z3.BitVecVal(al, 32)
+        xz = x if is_sym(x) else z3.BitVecVal(x, 32)
+        return z3.UDiv(xz + az - 1, az) * az
+    return ((x + al - 1) // al) * al
+
+
+@model(r'impl (naga::)?Literal>::(zero|one|new)$|^naga::Literal::(zero|one)$|^Literal::(zero|one)$')
+def m_literal_zero(it, n, a):
+    """transcription of naga-24.0.0 src/proc/mod.rs Literal::new(value, scalar)"""
+    one = n.endswith('one')
+    if n.endswith('new'):
+        v, sc = a[0], a[1]
+        if is_sym(v):
+            raise Unsupported('Literal::new with a symbolic value')
+        one = v == 1
+    else:
+        sc = a[0]
+    sc = deref(sc)
+    kind, width = sc.fields[0].disc, sc.fields[1]
+    SK = {v['name']: v['disc'] for v in it.env['schema']['enums']['ScalarKind']}
+    if is_sym(kind):
+        kind = it.concretize(kind, sorted(SK.values()))
+    if is_sym(width):
+        width = it.concretize(width, [1, 2, 4, 8])
+    conv = it.env['conv']
+    table = {(SK['Float'], 8): ('F64', float(one)), (SK['Float'], 4): ('F32', float(one)), (SK['Uint'], 4): ('U32', int(one)), (SK['Sint'], 4): ('I32', int(one)),
+             (SK['Uint'], 8): ('U64', int(one)), (SK['Sint'], 8): ('I64', int(one)), (SK['Bool'], 1): ('Bool', bool(one))}
+    hit = table.get((kind, width))
+    if hit is None:
+        return none()
+    return some(conv.enum('Literal', hit[0], [hit[1]]))
+
+
+@model(r'impl (naga::)?TypeInner>::scalar$')
+def m_type_inner_scalar(it, n, a):
+    """naga proc/mod.rs TypeInner::scalar: Scalar | Vector | Matrix | Atomic -> Some(component scalar), else None"""
+    inner = arg0(a)
+    E = {v['name']: v['disc'] for v in it.env['schema']['enums']['TypeInner']}
+    d = inner.disc
+    if is_sym(d):
+        d = it.concretize(d, sorted(E.values()))
+    name = next(k for k, v in E.items() if v == d)
+    f = inner.fields[name] if isinstance(inner.fields, dict) else inner.fields
+    if name in ('Scalar', 'Atomic'):
+        return some(copy_val(f[0]))
+    if name == 'Vector':
+        return some(copy_val(f[1]))
+    if name == 'Matrix':
+        return some(copy_val(f[2]))
+    if name == 'ValuePointer':
+        return some(copy_val(f[1]))
+    return none()
+
+
+@model(r'slice::<impl \[.*\]>::chunk_by::<')
+def m_chunk_by(it, n, a):
+    items = arg0(a)
+    out, cur = [], []
+    for i, x in enumerate(items):
+        if cur and not it.truth(it.call_closure(a[1], [Ref(Cell(items), (i - 1,)), Ref(Cell(items), (i,))])):
+            out.append(cur)
+            cur = []
+        cur.append(x)
+    if cur:
+        out.append(cur)
+    return ListIter(out)
+
+
+@model(r'slice::<impl \[.*\]>::(chunks|windows)$')
+def m_chunks(it, n, a):
+    items = arg0(a)
+    k = conc_int(it, a[1], 'chunk size')
+    if isinstance(items, Agg) and items.path == 'Bytes':
+        raise Unsupported('byte chunks of an abstract string')
+    if n.endswith('chunks'):
+        return ListIter([items[i:i + k] for i in range(0, len(items), k)])
+    return ListIter([items[i:i + k] for i in range(0, max(0, len(items) - k + 1))])
+
+
+@model(r'^(std::result::)?Result::<.*>::(inspect|inspect_err)::<')
+def m_res_inspect(it, n, a):
+    isok, v = res_fork(it, a[0])
+    if isok == ('inspect_err' not in n):
+        it.call_closure(a[1], [mkref(v)])
+    return a[0]
+
+
+@model(r'^Option::<.*>::inspect::<')
+def m_opt_inspect(it, n, a):
+    s_, v = opt_fork(it, a[0])
+    if s_:
+        it.call_closure(a[1], [mkref(v)])
+    return a[0]
+
+
+@model(r'^<(String) as (std::default::)?Default>::default$')
+def m_string_default(it, n, a):
+    return ''
+
+
+@model(r'^<(bool|u8|u16|u32|u64|usize|i32|i64) as (std::default::)?Default>::default$')
+def m_prim_default(it, n, a):
+    return False if '<bool ' in n else 0
+
+
+@model(r'^<Option<.*> as (std::default::)?Default>::default$')
+def m_opt_default(it, n, a):
+    return none()
+
+
+@model(r'^<(wgpu::)?ShaderStages as (std::default::)?Default>::default$')
+def m_stages_default(it, n, a):
+    return mkflags('wgpu::ShaderStages', 0)
+
+
+@model(r'^HashSet::<.*>::clear$')
+def m_hs_clear(it, n, a):
+    arg0(a).items.clear()
+    return unit()
+
+
+@model(r'^HashMap::<.*>::clear$')
+def m_hm_clear(it, n, a):
+    arg0(a).entries.clear()
+    return unit()
+
+
+@model(r'^BTreeMap::<.*>::clear$')
+def m_bt_clear(it, n, a):
+    arg0(a).entries.clear()
+    return unit()
+
+
+@model(r'^HashMap::<.*>::remove::<')
+def m_hm_remove(it, n, a):
+    m = arg0(a)
+    i = hm_find(it, m, a[1])
+    return some(m.entries.pop(i)[1]) if i is not None else none()
+
+
+@model(r'^HashMap::<.*>::is_empty$')
+def m_hm_is_empty(it, n, a):
+    return len(arg0(a).entries) == 0
+
+
+@model(r'^<(std::collections::)?HashMap<.*> as (std::ops::)?Index<.*>>::index$')
+def m_hm_index(it, n, a):
+    m = arg0(a)
+    i = hm_find(it, m, a[1])
+    if i is None:
+        raise Panic('HashMap index: key not found')
+    return Ref(SlotCell(m.entries[i]))
+
+
+@model(r'^<(std::collections::)?BTreeMap<.*> as (std::ops::)?Index<.*>>::index$')
+def m_bt_index(it, n, a):
+    m = arg0(a)
+    i, found = bt_find(it, m, a[1])
+    if not found:
+        raise Panic('BTreeMap index: key not found')
+    return Ref(SlotCell(m.entries[i]))
+
+
+@model(r'^<Vec<.*> as (std::ops::)?(Index|IndexMut)<usize>>::(index|index_mut)$|^<\[.*\] as (std::ops::)?Index<usize>>::index$')
+def m_vec_index(it, n, a):
+    v = arg0(a)
+    items = v.items if isinstance(v, VecV) else v
+    i = a[1]
+    if is_sym(i):
+        i = it.concretize(i, list(range(len(items))))
+        if i is None:
+            raise Panic('index out of bounds')
+    if not (0 <= i < len(items)):
+        raise Panic('index out of bounds')
+    return Ref(Cell(v), (i,))
+
+
+@model(r'^Child::(wait|try_wait|kill)$')
+def m_child_wait(it, n, a):
+    f = it.env.get('child_wait')
+    if f is None:
+        raise Unsupported('no environment model for ' + n)
+    return f(it, a[0], n.split('::')[-1])
+
+
+@model(r'<ChildStdout as (std::io::)?Read>::(read_to_string|read_to_end)$|^(std::io::)?read_to_string::<')
+def m_child_read(it, n, a):
+    f = it.env.get('child_read')
+    if f is None:
+        raise Unsupported('no environment model for ' + n)
+    return f(it, a[0], a[1] if len(a) > 1 else None)
